@@ -224,8 +224,8 @@ def worker(args) -> Dict[str, Any]:
     for idx, (name, text, _) in enumerate(mine):
         limit = chk.t0 + 0.8 * budget if text is None else deadline
         if time.time() > limit:
-            if text is None and not c11.share_met(chk, MINIMA, tuple(MINIMA), n_shards) and time.time() < chk.t0 + chk.pick(3.0, 1.5) * budget:
-                limit = chk.t0 + chk.pick(3.0, 1.5) * budget
+            if text is None and not c11.share_met(chk, MINIMA, tuple(MINIMA), n_shards) and time.time() < chk.t0 + chk.pick(2.0, 1.5) * budget:
+                limit = chk.t0 + chk.pick(2.0, 1.5) * budget
                 chk.count("models_run_past_the_budget_to_reach_minimum_counts")
             else:
                 chk.count("models_skipped_for_budget")
